@@ -92,6 +92,10 @@ def sites(lib):
                     c = peel(R.operand(rv["b"]), calls=None, casts=False)
                     key = "%s|%s %s|%s|%s" % (root, op, ty, show(a)[:110], show(c)[:110])
                     yield key, "binop", f, s["line"], {"op": op, "ty": ty, "a": a, "b": c, "bb": b["id"]}
+                elif rv["r"] == "cast" and rv["kind"] in ("IntToFloat", "FloatToInt") and in_scope:
+                    v = peel(R.operand(rv["v"]), calls=None, casts=False)
+                    key = "%s|cast %s->%s|%s" % (root, rv["from"], rv["to"], show(v)[:110])
+                    yield key, "floatcast", f, s["line"], {"from": rv["from"], "to": rv["to"], "v": v, "bb": b["id"]}
                 elif rv["r"] == "cast" and rv["kind"] == "IntToInt":
                     v = peel(R.operand(rv["v"]), calls=None, casts=False)
                     key = "%s|cast %s->%s|%s" % (root, rv["from"], rv["to"], show(v)[:110])
@@ -100,6 +104,8 @@ def sites(lib):
 
 def auto(fn, kind, d):
     """local safety argument, or None"""
+    if kind == "floatcast":
+        return None       # floating point in integer constraint code: exact only below 2^24 / 2^53
     if kind == "cast":
         wf, wt = WIDTH.get(d["from"]), WIDTH.get(d["to"])
         if wf is None or wt is None:
